@@ -179,7 +179,9 @@ func c04R2R3(c *Ctx) {
 				}
 			}
 			if p.Success() && p.Kind == "return" {
-				if !p.IsNil(lerr) || !p.Holds(atomB(call("errors.Is", lerr, gl("fosite.ErrInactiveToken"))), false) {
+				// a nil lookup error is not an inactive-token error; the explicit
+				// errors.Is test need not have run on the success path
+				if !p.IsNil(lerr) {
 					okTested, wTested = false, p
 				}
 			}
@@ -192,7 +194,7 @@ func c04R2R3(c *Ctx) {
 			c.Check(okTol, "C04.R2", role, fn, "reuse-tolerates-only-notfound", "the reuse branch continues past a failed storage call only for ErrNotFound", whyTol, wTol)
 		}
 		c.Check(okClass, "C04.R2", role, fn, "reuse-classified-first", "every exit after the refresh-token lookup is taken only once its error was tested against ErrInactiveToken (or is nil): no other check can pre-empt reuse detection", "an exit is reachable after the lookup without the inactive-token test", wClass)
-		c.Check(okTested, "C04.R3", role, fn, "success-needs-active-token", "success exits require a nil lookup error with the inactive-token test evaluated false", "a success exit is reachable without the lookup error having been classified", wTested)
+		c.Check(okTested, "C04.R3", role, fn, "success-needs-active-token", "success exits require the refresh-token lookup error to be known nil (which excludes ErrInactiveToken)", "a success exit is reachable with a lookup error that is not known to be nil", wTested)
 	}
 	checkCredentialValidated(c, "C04.R3", "refresh", fns, nil, ".GetRefreshTokenSession", ".ValidateRefreshToken", 2)
 	checkSetID(c, "C04.R3", role, ".GetRefreshTokenSession", fns)
